@@ -62,7 +62,21 @@ type DecideSpec struct {
 	// step into for this decision (in addition to StepPolicy), e.g. a small
 	// helper shared by sibling methods.
 	Step func(*ssa.Function) bool
+	// opaque: helpers the second view found it must not step into (set by Decide)
+	opaque map[*ssa.Function]bool
+	// needed: helpers whose results the first view met in a condition it could
+	// not name (set by Decide); shared helpers are stepped into only when needed
+	needed map[*ssa.Function]bool
 }
+
+// undecidedIn collects, during one decideOnce, the stepped-into helpers in
+// which an unrecognised condition was met.
+var undecidedIn map[*ssa.Function]bool
+
+// neededStep collects the helpers whose results appear in a condition the rule
+// does not name: the shared helpers (DecideStepPolicy) among them are the ones
+// the second view steps into.
+var neededStep map[*ssa.Function]bool
 
 // StepPolicy says which statically called same-package functions the
 // interpreter steps into (their conditions and effects then count as the
@@ -70,6 +84,10 @@ type DecideSpec struct {
 // call site", i.e. code that an extract-function refactor moved out of the
 // function under analysis.
 var StepPolicy func(*ssa.Function) bool
+
+// DecideStepPolicy widens StepPolicy for the interpreter's second view only:
+// small private helpers shared by several functions.
+var DecideStepPolicy func(*ssa.Function) bool
 
 var curResolve func(ssa.Value) ssa.Value
 
@@ -122,9 +140,31 @@ type DecideResult struct {
 func Decide(spec DecideSpec, pos func(token.Pos) string) DecideResult {
 	opaque := spec
 	opaque.NoStep = true
+	neededStep = map[*ssa.Function]bool{}
 	res := decideOnce(opaque, pos)
+	spec.needed = neededStep
+	neededStep = nil
 	if (len(res.Undecided) > 0 || len(res.Mismatches) > 0) && StepPolicy != nil && !spec.NoStep {
-		res2 := decideOnce(spec, pos)
+		// step as deep as the policy allows; a helper in which a condition is met
+		// that the rule does not name is one the rule treats as an atom (its result
+		// is what the rule names): it is made opaque and the view is rebuilt
+		spec.opaque = map[*ssa.Function]bool{}
+		var res2 DecideResult
+		for iter := 0; iter < 4; iter++ {
+			undecidedIn = map[*ssa.Function]bool{}
+			res2 = decideOnce(spec, pos)
+			progressed := false
+			for f := range undecidedIn {
+				if !spec.opaque[f] {
+					spec.opaque[f] = true
+					progressed = true
+				}
+			}
+			undecidedIn = nil
+			if len(res2.Undecided) == 0 || !progressed {
+				break
+			}
+		}
 		if os.Getenv("RQCHECK_DEBUG_DECIDE") != "" {
 			fmt.Fprintf(os.Stderr, "DECIDE %s: opaque undecided=%v mismatches=%d; stepped undecided=%v mismatches=%d\n", spec.Fn.Name(), res.Undecided, len(res.Mismatches), res2.Undecided, len(res2.Mismatches))
 			if len(res2.Mismatches) > 0 {
@@ -319,6 +359,9 @@ func interpret(spec DecideSpec, val Val, pos func(token.Pos) string) (string, []
 		if _, isMC := call.Call.Value.(*ssa.MakeClosure); isMC {
 			return nil
 		}
+		if spec.opaque[g] {
+			return nil
+		}
 		// a call the rule itself names as an effect is an atom of the decision
 		if spec.Effect != nil {
 			if _, named := spec.Effect(call); named {
@@ -330,7 +373,7 @@ func interpret(spec DecideSpec, val Val, pos func(token.Pos) string) (string, []
 				return nil
 			}
 		}
-		if (StepPolicy == nil || !StepPolicy(g)) && (spec.Step == nil || !spec.Step(g)) {
+		if (StepPolicy == nil || !StepPolicy(g)) && (DecideStepPolicy == nil || !spec.needed[g] || !DecideStepPolicy(g)) && (spec.Step == nil || !spec.Step(g)) {
 			if os.Getenv("RQCHECK_DEBUG_DECIDE") != "" {
 				fmt.Fprintf(os.Stderr, "  not stepping into %s (policy)\n", g.Name())
 			}
@@ -458,6 +501,19 @@ func interpret(spec DecideSpec, val Val, pos func(token.Pos) string) (string, []
 					}
 					if !matched {
 						bad = append(bad, fmt.Sprintf("unrecognised condition %s at %s", CanonWith(cond, nil), pos(t.Cond.Pos())))
+						if fr.fn != spec.Fn && undecidedIn != nil {
+							undecidedIn[fr.fn] = true
+						}
+						if neededStep != nil {
+							Mentions(cond, func(x ssa.Value) bool {
+								if call, isCall := x.(*ssa.Call); isCall {
+									if g := call.Call.StaticCallee(); g != nil {
+										neededStep[g] = true
+									}
+								}
+								return false
+							})
+						}
 						return "", bad
 					}
 				}
